@@ -154,6 +154,12 @@ pub fn c10(tier: &str, seed: u64) -> Vec<Case> {
             if out != format!("ok {}", packet_text(&rr_text)) {
                 c = c.fail("layout-read", format!("{}: parsing the RFC encoding does not give the field values back: {}", KIND_NAMES[kind], &out[..out.len().min(200)]));
             }
+            // ... and they are still the field values when the record is kept beyond the receive buffer (`into_owned`)
+            {
+                let rb = reference.clone();
+                let owned = std::panic::catch_unwind(move || Packet::parse(&rb).ok().and_then(|q| q.answers.into_iter().next().map(|r| text::rr(&r.into_owned())))).unwrap_or(None);
+                if class_of(&out) == "ok" && owned.as_deref() != Some(&rr_text[..]) { c = c.fail("layout-read", format!("{}: the owned copy of the parsed record holds other field values than the encoding", KIND_NAMES[kind])); }
+            }
             v.push(c);
             // (3) the same with a preceding record whose names the encoder may point into (receivers must
             // accept compression pointers in any embedded name)
